@@ -15,6 +15,8 @@ import datetime
 import logging
 from typing import Optional, Tuple
 import io
+import zipfile
+import zlib
 from lxml import etree  # type: ignore
 
 import pyecma376_2
@@ -78,7 +80,9 @@ def check_deserialization(file_path: str, state_manager: ComplianceToolStateMana
         reader.read_into(obj_store, files)
         new_cp = reader.get_core_properties()
         state_manager.set_step_status(Status.SUCCESS)
-    except (ValueError, KeyError) as error:
+    # a damaged package surfaces as any of these while a part, its relationships or the core properties are read
+    except (ValueError, KeyError, IndexError, OSError, NotImplementedError, zipfile.BadZipFile, zlib.error,
+            etree.XMLSyntaxError) as error:
         logger.error(error)
         state_manager.set_step_status(Status.FAILED)
         return model.DictObjectStore(), aasx.DictSupplementaryFileContainer(), pyecma376_2.OPCCoreProperties()
@@ -144,7 +148,9 @@ def check_schema(file_path: str, state_manager: ComplianceToolStateManager) -> N
                 else:
                     raise ValueError("Could not determine part format of AASX part {} (Content Type: {}, extension: {}"
                                      .format(aas_part, content_type, extension))
-    except ValueError as error:
+    # a damaged package surfaces as any of these while a part or its relationships are read
+    except (ValueError, KeyError, IndexError, OSError, NotImplementedError, zipfile.BadZipFile, zlib.error,
+            etree.XMLSyntaxError) as error:
         logger.error(error)
         state_manager.set_step_status(Status.FAILED)
     finally:
